@@ -246,6 +246,19 @@ def MState.run (kinds : List RawKind) (pass : List Nat) (s : MState) : List POp 
     | none => none
     | some s' => s'.run kinds pass ops
 
+/-- positions of the pass skipped by one primitive (ghost) -/
+def skippedBy (s : MState) : POp → List Nat
+  | .skip => [s.passIdx]
+  | _ => []
+
+/-- all positions skipped while running `ops` from `s` (ghost) -/
+def skippedRun (kinds : List RawKind) (pass : List Nat) (s : MState) : List POp → List Nat
+  | [] => []
+  | op :: ops =>
+    match s.step kinds pass op with
+    | none => []
+    | some s' => skippedBy s op ++ skippedRun kinds pass s' ops
+
 /-! ### consolidation of passes -/
 
 def usizeMax : Nat := 18446744073709551615
